@@ -107,6 +107,9 @@ Proof.
   - simpl. apply keys_task_set_state.
 Qed.
 
+Lemma uniq_keys s s' : keys s' = keys s -> uniq s -> uniq s'.
+Proof. intros H. unfold uniq, ujoins. rewrite H. auto. Qed.
+
 Lemma dispatch_uniq sp fuel :
   (forall t cmds, Pu t (fst (process_cmds sp fuel t cmds))) /\
   (forall t cmds, Pu t (fst (dispatch sp fuel t cmds))) /\
@@ -122,15 +125,15 @@ Proof.
       destruct (defer sp (fst t) name trig) as [[s1 tid] chk]. exact H.
     + simpl. unfold uniq. rewrite ujoins_add. simpl. rewrite app_nil_r. exact Hu.
   - intros t tid a b _ _. unfold run_existing_cmd. simpl.
-    destruct (_ && _); apply keys_only_tasks; reflexivity.
+    destruct (_ && _); [apply keys_only_tasks; reflexivity|].
+    destruct (_ && _); [|apply keys_only_tasks; reflexivity].
+    apply uniq_keys. apply keys_upd_task. reflexivity.
   - intros t x s1 _ _ H. simpl. apply keys_only_tasks. apply tasks_set_workflow_state in H. exact H.
   - intros t tid x. pose proof (keys_complete_pre sp t tid x) as H.
     destruct (complete_pre sp t tid x); unfold uniq, ujoins; rewrite H; auto.
 Qed.
 
 (* ------------------------------------------------------------ step level *)
-Lemma uniq_keys s s' : keys s' = keys s -> uniq s -> uniq s'.
-Proof. intros H. unfold uniq, ujoins. rewrite H. auto. Qed.
 
 Lemma uniq_check_affected sp t tid : uniq (fst t) -> uniq (fst (check_affected sp t tid)).
 Proof. unfold check_affected. destruct (negb _); [auto|]. destruct (is_completed _); auto. Qed.
